@@ -369,7 +369,7 @@ def bounded_inventory(reg, tier, seed):
 
 def _bounded_inventory(tier, seed):
     from io import StringIO
-    from hippolyzer.lib.base.inventory import InventoryModel, InventoryItem
+    from hippolyzer.lib.base.inventory import InventoryModel
     from hippolyzer.lib.base.wearables import Wearable
     from hippolyzer.lib.base.templates import WearableType
     rng = random.Random(seed)
@@ -432,7 +432,9 @@ def _bounded_inventory(tier, seed):
                     else:
                         back = type(node).from_llsd(node.to_llsd(flavor), flavor)
                 except Exception as ex:  # noqa
-                    fails.add(f"inventory/{flavor}-node/{type(node).__name__}/raises-{type(ex).__name__}", clause_node, describe(node),
+                    # a KeyError names the absent member: part of the failure class, so that different absences stay apart
+                    what = f":{ex.args[0]}" if isinstance(ex, KeyError) and ex.args and isinstance(ex.args[0], str) and len(ex.args[0]) < 30 else ""
+                    fails.add(f"inventory/{flavor}-node/{type(node).__name__}/raises-{type(ex).__name__}{what}", clause_node, describe(node),
                               f"raised {type(ex).__name__}: {ex}")
                     continue
                 if check_node(node, flavor, back, "node"):
@@ -1102,9 +1104,11 @@ def _bounded_transfers(loop, tier, seed):
                 if complete:
                     got = bytes((await asyncio.wait_for(xfer, 1.0)).reassemble_chunks())
                     if got != payload:
-                        return "xfer/reassemble", step, f"reassembled {len(got)} bytes, sent {len(payload)}; first difference at byte {_first_diff(got, payload)}"
+                        return ("xfer/reassemble", step,
+                                f"reassembled {len(got)} bytes, sent {len(payload)}; first difference at byte {_first_diff(got, payload)}")
                     return None
             return None
+
         async def run_and_clean():
             try:
                 return await run()
@@ -1258,6 +1262,7 @@ def _bounded_transfers(loop, tier, seed):
                         return "transfer/reassemble", step, f"reassembled {len(got)} bytes (size hint {tr.expected_size}), sent {len(payload)}"
                     return None
             return None
+
         async def run_and_clean():
             try:
                 return await run()
